@@ -150,6 +150,12 @@ RESOLVE_SHAPES_QUICK = ["ATnL", "ATnnL", "ATnnnL", "ATn?L", "ATnn?L", "ATn=L", "
 
 def resolve_jobs(prop, tier):
     jobs = []
+    # the 2-bit match table for tables of hundreds of commands (kernel level)
+    jobs.append(Job("k_lanes.n200", "k_lanes.c", {"NCMDS": 200}, unwind=60, timeout=900, samples=100000,
+                    required_witness=["end-of-scenario", "high-index-full-match", "indices-in-different-groups"]))
+    if tier == "thorough":
+        jobs.append(Job("k_lanes.n600", "k_lanes.c", {"NCMDS": 600}, unwind=160, timeout=1800, samples=100000, solver="kissat",
+                        required_witness=["end-of-scenario", "high-index-full-match"]))
     for shape in RESOLVE_SHAPES_QUICK:
         jobs.append(shape_job(prop, shape, harness="r_resolve.c", extra={"G": 2, "G1_START": 2}, samples=200000))
     return with_prop(prop, jobs)
@@ -180,6 +186,9 @@ def c06(tier):
         jobs.append(shape_job("C06", "AT+k=" + "x" * n + "L", harness="r_args.c", cap=(6, 8), extra={"SEPARATE_UBUF": 1}, name="separate.w%d" % n, samples=200000))
     jobs.append(shape_job("C06", "AT+k?L", harness="r_args.c", cap=(12, 24), name="shared.read"))
     jobs.append(shape_job("C06", "AT+k?L", harness="r_args.c", cap=(6, 12), extra={"SEPARATE_UBUF": 1}, name="separate.read"))
+    # handler arguments of both machines, from any state, shared and separate event buffer of any size (step jobs)
+    for sep in (0, 1):
+        jobs += step_jobs("C06", tier, pairs=[(14, 0), (15, 0), (0, 3), (0, 4)], seps=(sep,))
     return with_prop("C06", jobs)
 
 
@@ -392,7 +401,7 @@ def c20(tier):
 def c12(tier):
     jobs = step_jobs("C12", tier)
     if tier == "quick":
-        jobs += [twin_job("C12", 1, sh, r=1) for sh in ("ATnL", "ATn?L")]
+        jobs += [twin_job("C12", 1, sh, r=1) for sh in ("ATnL",)]
     else:
         jobs += [twin_job("C12", 1, sh, r=2) for sh in ("ATnL", "ATn?L", "ATn=aL", "gxL")]
     return with_prop("C12", jobs)
@@ -458,7 +467,10 @@ def c15(tier):
 def c18(tier):
     jobs = step_jobs("C18", tier)
     jobs += api_jobs("C18", (0, 1), 0, 0, (1,))
-    for shape, lines in (("ATnL", 1), ("ATn?L", 1), ("ATn=aL", 1), ("ATLATL", 2), ("gxL", 1), ("***", 2)):
+    shapes = [("ATnL", 1), ("ATn?L", 1), ("ATn=aL", 1), ("ATLATL", 2), ("gxL", 1), ("ATngxL", 1)]
+    if tier == "thorough":
+        shapes += [("***", 2), ("ATn=?xL", 1), ("AgxL", 1)]
+    for shape, lines in shapes:
         jobs.append(shape_job("C18", shape, lines=lines))
     return with_prop("C18", jobs)
 
